@@ -14,6 +14,7 @@ RULE = ("one case = (method, direction, dense flag, 1..6 event functions g=s*(h-
 ASSUMPTIONS = ["derivative-dependent events: a crossing is counted only when |g| at both step ends exceeds 1e3*eps*|s|*(|h|+|c|) (the slope handed to the "
                "event function comes from the interpolant); all other families are judged on the strict signs at the recorded rows",
                "terminal runs: only the rows actually recorded (up to the stop) are judged"]
+RULE += " Strata added in the fourth seeding round: Calls handed over from a call that monitored other functions (crossing in the first step) and event objects first monitored by another system with other attributes."
 FLOORS = {"quick": {"crossing_steps_fwd_dense": 50, "crossing_steps_fwd_nodense": 50, "crossing_steps_bwd_dense": 50, "crossing_steps_bwd_nodense": 50,
                     "boundary_crossings": 4, "root_finder_calls_traced": 2000, "near_boundary_crossings_end": 8, "near_boundary_crossings_start": 8,
                     "crossings_in_terminal_runs_fwd": 10, "crossings_in_terminal_runs_bwd": 10, "crossings_sharing_the_terminal_step": 6, "terminal_stops": 20, "crossings_of_extreme_scale_functions": 40, "crossings_far_from_the_origin_with_fast_dynamics": 300, "runs_after_a_survey_with_other_attributes": 8, "crossings_in_the_first_step_after_a_handover": 5},
